@@ -50,8 +50,25 @@ func basePatterns() []string {
 		"{sub}.host.com/a", "host.{tld}/a", "host.com/{user.id}/x", "host.com/{a}/{b}", "host.com/{a}/x/{a}", "{a}.{b}/{c}",
 		"api.host.com/v1/users/{id}/posts/{post-id}", "host.com/a+b", "host.com/a(1)", "host.com/a$b", "host.com/x/y.json",
 	)
+	out = append(out, portPatterns...)
 	return out
 }
+
+// portPatterns: the request host is the Host / x-lunar-host header as sent, so
+// it may name a port ("api.com:8443"); filters are declared without one (exact,
+// path parameter, host parameter, bare host, wildcard: the first block, whose
+// request URLs get a port from urlsFor) or with one (second block: requests
+// with the same port, another one, none), plus bracketed IPv6 literals and
+// malformed ports
+var portPatterns = []string{
+	"api.acme.com/v1/orders", "api.acme.com/v1/orders/{orderID}", "{tenant}.acme.com/v1/orders", "acme.com", "acme",
+	"{tenant}.acme.com", "acme.{tld}", "acme.com/{id}", "acme.com/v1/*", "acme.*", "{a}.{b}/{c}/x",
+	"api.acme.com:8443/v1/orders", "acme.com:8080", "acme.com:8080/{id}", "{tenant}.acme.com:443/v1/orders",
+	"acme.com:80/*", "acme.com:8080.*", "acme:8080", "{tenant}:8080/x", "acme.com:{port}/x", "acme.{tld}:8080/x",
+	"acme.com:/x", "acme.com:http/x", ":8080/x", "acme.com:80:90/x", "acme.com/x:8080", "acme.com/x:8080/y",
+	"[::1]:8080/x", "[::1]/x", "[2001:db8::7]:443/v1/{id}", "[2001:db8::7]/v1/{id}", "[::1]", "[::1]:8080",
+}
+
 
 var hostPool = []string{"api", "com", "h", "a-b", "x_1", "{s}", "a+b", "{t.x}", "EXAMPLE", "a$", "(h)", "h1"}
 var segPool = []string{"v1", "users", "x", "y", "{id}", "{user.id}", "a+b", "a.b", "x(1)", "$x", "a|b", "[z]", "q?", "{}", "it's", "a b", "%20", "x:y", "{id}x", "^", "a*"}
@@ -155,10 +172,49 @@ func metaConfusions(s string) []string {
 	return out
 }
 
+// hostPort splits "host[:digits][/path]" (the first '/' ends the host; the
+// port is what follows the LAST ':' of the host when it is made of digits, so a
+// bracketed IPv6 literal with a port is read as such): host name, port, rest.
+func hostPort(u string) (name, port, rest string) {
+	host := u
+	if j := strings.IndexByte(u, '/'); j >= 0 {
+		host, rest = u[:j], u[j:]
+	}
+	if j := strings.LastIndexByte(host, ':'); j > 0 && j < len(host)-1 && strings.Trim(host[j+1:], "0123456789") == "" {
+		return host[:j], host[j+1:], rest
+	}
+	return host, "", rest
+}
+
+// withPort: the URL with an explicit port on its host (replacing one it has)
+func withPort(u, port string) string {
+	name, _, rest := hostPort(u)
+	return name + ":" + port + rest
+}
+
+// portSpellings: the request URLs a client that names the port produces for
+// instances of the pattern (Host: api.com:8443), whether or not the filter is
+// declared with one: the instance with a port, with another port, without any,
+// and a port that is not a number
+func portSpellings(pp []mpart) []string {
+	i0, i1 := instance(pp, 0), instance(pp, 1)
+	name, port, rest := hostPort(i0)
+	out := []string{withPort(i0, "8443"), withPort(i1, "80"), name + rest, name + ":http" + rest}
+	if port != "" {
+		out = append(out, withPort(i0, port+"0"), withPort(instance(pp, 2), port))
+	}
+	if strings.HasPrefix(name, "[") || strings.Contains(name, ":") {
+		// a host that already contains colons (IPv6 literal, malformed port)
+		out = append(out, "["+strings.Trim(name, "[]")+"]:8443"+rest)
+	}
+	return out
+}
+
 func urlsFor(pattern string, wide bool) []string {
 	pp := monSplit(pattern)
 	i0 := instance(pp, 0)
 	urls := []string{i0, instance(pp, 1), instance(pp, 2), instance(pp, 3)}
+	urls = append(urls, portSpellings(pp)...)
 	urls = append(urls, i0+"/", i0+"//", "/"+i0, i0+".", "."+i0, i0+"/extra", i0+"/extra/more", "x"+i0, i0+"x")
 	if len(pp) > 1 {
 		urls = append(urls, instance(pp[:len(pp)-1], 0))
